@@ -355,4 +355,67 @@ def run(ctx, repo):
             ctx.finding('R3', '%s::$ref %s' % (rel, r), rel, None,
                         '$ref %r is neither a local pointer nor a file:///json/ reference: resolving it needs the network' % r, r)
     ctx.floor('$ref occurrences checked', n_ref, 15)
+    # ---- R6 every bundled schema is structurally a schema: where the vocabulary expects a schema (the values of properties /
+    # definitions, items, allOf ...) there is an object or a boolean, and `required` is a list of strings.  A file that is not a schema
+    # makes every validation against it (or against a file that refers to it) end in SchemaError, whatever the document and whatever
+    # expect_failure says - an outcome the callers of valid_against_schema(..., expect_failure=False) do not expect.
+    ctx.rule('R6', 'every file under json/ that is used as a schema is structurally one (schemas where schemas are expected, required = list of strings)')
+    MAPS = ('properties', 'patternProperties', 'definitions', '$defs')
+    ONE = ('additionalItems', 'additionalProperties', 'not', 'contains', 'propertyNames', 'if', 'then', 'else')
+    LISTS = ('allOf', 'anyOf', 'oneOf')
+
+    def walk_schema(sc, ptr, out):
+        if isinstance(sc, bool):
+            return
+        if not isinstance(sc, dict):
+            out.append((ptr, 'a %s stands where a schema (an object) is expected' % type(sc).__name__))
+            return
+        for k in MAPS:
+            if k in sc:
+                if not isinstance(sc[k], dict):
+                    out.append((ptr + '/' + k, '%s is not an object' % k))
+                else:
+                    for name, sub in sc[k].items():
+                        walk_schema(sub, ptr + '/' + k + '/' + name, out)
+        for k in ONE:
+            if k in sc and not (k in ('additionalItems', 'additionalProperties') and isinstance(sc[k], bool)):
+                walk_schema(sc[k], ptr + '/' + k, out)
+        for k in LISTS:
+            if k in sc:
+                if not isinstance(sc[k], list) or not sc[k]:
+                    out.append((ptr + '/' + k, '%s is not a non-empty list' % k))
+                else:
+                    for i_, sub in enumerate(sc[k]):
+                        walk_schema(sub, '%s/%s/%d' % (ptr, k, i_), out)
+        if 'items' in sc:
+            if isinstance(sc['items'], list):
+                for i_, sub in enumerate(sc['items']):
+                    walk_schema(sub, '%s/items/%d' % (ptr, i_), out)
+            else:
+                walk_schema(sc['items'], ptr + '/items', out)
+        if 'required' in sc and not (isinstance(sc['required'], list) and all(isinstance(x, str) for x in sc['required'])):
+            out.append((ptr + '/required', 'required is not a list of property names'))
+        if 'type' in sc and not (isinstance(sc['type'], str) or (isinstance(sc['type'], list) and all(isinstance(x, str) for x in sc['type']))):
+            out.append((ptr + '/type', 'type is neither a name nor a list of names'))
+        if 'enum' in sc and not isinstance(sc['enum'], list):
+            out.append((ptr + '/enum', 'enum is not a list'))
+    n_schema = 0
+    for f in files:
+        try:
+            doc = json.load(open(f, encoding='utf-8'))
+        except ValueError:
+            continue
+        rel = os.path.relpath(f, repo.root)
+        if not (isinstance(doc, dict) and ('$schema' in doc or 'properties' in doc or 'definitions' in doc)) or '/samples/' in rel.replace(os.sep, '/'):
+            continue
+        n_schema += 1
+        probs = []
+        walk_schema(doc, '#', probs)
+        for ptr, why in probs[:3]:
+            ctx.finding('R6', '%s::%s' % (rel, ptr), rel, None,
+                        '%s at %s: %s - the file is not a valid schema, so validating any document against it (or against a schema that refers to '
+                        'it) raises SchemaError instead of answering' % (rel, ptr, why), ptr)
+        if not probs:
+            ctx.ok('R6', '%s is structurally a schema' % rel)
+    ctx.floor('schema files checked for structure', n_schema, 10)
     ctx.count('schema files', len(files))
